@@ -76,6 +76,13 @@ def c01(ctx, v):
     ctx.floor("R-RESTORE[PriorityQueue]", sum(1 for o in ctx.obs if o.rule == "R-RESTORE" and o.config == v.config), 15)
 
 
+def dbgpure_once(ctx, v, kinds):
+    """R-DBGPURE once per check run (it compares the std view with the debug-assertions build)"""
+    if v.config == "std" and not getattr(ctx, "_dbgpure_done", False):
+        ctx._dbgpure_done = True
+        D.r_dbgpure(ctx, v, kinds=kinds)
+
+
 def representation(ctx, v):
     """the heap order is a statement about heap[] / qp[] / map: the extreme element is found only if the three tables are
     mutually consistent, so the structural conditions of that consistency are necessary conditions of C01 / C02 too"""
@@ -85,6 +92,7 @@ def representation(ctx, v):
     T.r_repair(ctx, v)
     if S:
         S.r_prim(ctx, v)
+    dbgpure_once(ctx, v, ("TW", "MW", "KEYMUT", "CMP", "MRUC"))
 
 
 def c02(ctx, v):
@@ -101,6 +109,7 @@ def c02(ctx, v):
 
 
 def c03(ctx, v):
+    dbgpure_once(ctx, v, ("TW", "MW", "KEYMUT"))
     T.r_tables(ctx, v, want=("R-GROW",))
     T.r_growval(ctx, v)
     T.r_storelit(ctx, v)
@@ -160,6 +169,7 @@ def c04(ctx, v):
     fixture_once(ctx, ["R-UNSAFEKINDS", "R-HINT", "R-ORDERPANIC"])
     if B:
         B.r_orderpanic(ctx, v)
+    dbgpure_once(ctx, v, ("TW", "MW", "KEYMUT", "CMP", "MRUC"))
     # an allocation request computed from the UPPER bound of a size_hint (not a promise) is a capacity-overflow panic on a
     # legal iterator
     M.r_hint(ctx, v)
@@ -188,6 +198,7 @@ def c04(ctx, v):
 def c05(ctx, v):
     if C:
         C.r_cost(ctx, v)
+    dbgpure_once(ctx, v, ("CMP",))
 
 
 def c06(ctx, v):
@@ -238,6 +249,7 @@ def c09(ctx, v):
 
 def c10(ctx, v):
     fixture_once(ctx, ["R-UNSAFEKINDS"])
+    dbgpure_once(ctx, v, ("TW", "MW", "KEYMUT", "CMP", "MRUC"))
     T.r_tables(ctx, v, want=("R-TORN",))
     D.r_dropless(ctx, v)
     D.r_unsafekinds(ctx, v)
@@ -253,6 +265,7 @@ def c11(ctx, v):
 
 def c12(ctx, v):
     D.r_keymut(ctx, v)
+    dbgpure_once(ctx, v, ("MW", "KEYMUT"))
     # "lookups ... address the same element": get / get_mut / get_priority of the queues return what the keyed lookup of the
     # map returns for that key (and nothing a shortcut found by other means)
     M.r_readers(ctx, v)
@@ -365,7 +378,10 @@ PROPS = {
             "request is computed from the upper bound of a size_hint); R-STORELIT (a Store literal is the empty store or a field-wise copy / move of one "
             "other Store, never assembled from separately computed parts); R-ORDERPANIC (no explicit panic - panic!, assert!, debug_assert!, read on the "
             "raw MIR behind `cfg!(debug_assertions)` too - is control-dependent on a comparison of priorities: the heap order is not an invariant "
-            "fault-free use preserves, a leaked iter_mut guard leaves it unspecified).",
+            "fault-free use preserves, a leaked iter_mut guard leaves it unspecified); R-DBGPURE (the default configuration is extracted a second time "
+            "with debug assertions on and compared body by body: code that exists only under debug assertions - `#[cfg(debug_assertions)]` items, "
+            "`debug_assert!` bodies - writes no table, no map entry, obtains no key mutably, compares no priorities and runs no other user code, "
+            "so the verdicts, all computed on the release-like build, carry over to the build the tests and most users run).",
             "trusted": [TRUST_RUSTC], "assumptions": ["container lengths <= isize::MAX (no overflow of len+1, 2*i+2)"]},
     "C05": {"rules": [c05], "explanation":
             "R-COST: comparison-cost class of every public entry point from the reachability of priority-comparison sites (parametricity: "
